@@ -346,6 +346,31 @@ def _unshared(w, t, ix):
             raise Precondition("label %s is shared" % ix)
 
 
+def _exclusive_labels(w, n):
+    """Operations that change the SIZE of labels in place are only meaningful
+    on a network none of whose labels is shared with a tensor outside it
+    (else the outside holder keeps the old size: a misuse of a virtual view,
+    not a bookkeeping defect)."""
+    tn = w.tns[n]
+    mine = {id(t) for t in tn.tensor_map.values()}
+    labels = set(tn.ind_map)
+    for t, _ in _all_tensor_objects(w).values():
+        if id(t) not in mine and labels & set(t.inds):
+            raise Precondition("labels shared with tensors outside the network")
+
+
+def _sizes_agree(tn, inds_sizes):
+    """Adding tensors whose labels exist in the network with another size is a
+    user error: not offered."""
+    for ix, sz in inds_sizes:
+        if ix in tn.ind_map and tn.ind_size(ix) != sz:
+            raise Precondition("label %s has another size in the receiving network" % ix)
+
+
+def _tn_sizes(tn):
+    return [(ix, tn.ind_size(ix)) for ix in tn.ind_map]
+
+
 COMBINE = {"combine_and", "combine_or", "ior", "iand", "add_tn", "combine", "tn_from_list", "make_norm"}
 NEWNET = {"combine_and", "combine_or", "combine", "tn_from_list", "make_norm"}
 
@@ -375,8 +400,10 @@ def apply(w, e):
         _size_ok(w, e[3], T[e[1]].ind_size(e[2]))
         T[e[1]].reindex_({e[2]: e[3]})
     elif k == "add_virtual":
+        _sizes_agree(T[e[1]], zip(w.ts[e[2]].inds, w.ts[e[2]].shape))
         T[e[1]].add_tensor(w.ts[e[2]], virtual=True)
     elif k == "add_copy":
+        _sizes_agree(T[e[1]], zip(w.ts[e[2]].inds, w.ts[e[2]].shape))
         T[e[1]].add_tensor(w.ts[e[2]], virtual=False)
     elif k == "copy":
         T[w.newname()] = T[e[1]].copy()
@@ -414,6 +441,7 @@ def apply(w, e):
     elif k == "mangle_inner":
         T[e[1]].mangle_inner_()
     elif k == "fuse_multibonds":
+        _exclusive_labels(w, e[1])
         T[e[1]].fuse_multibonds_()
     elif k == "squeeze":
         T[e[1]].squeeze_()
@@ -553,18 +581,25 @@ def apply(w, e):
             raise Precondition("empty network")
         T[w.newname()] = T[e[1]].make_norm(mangle_append=e[2])
     elif k == "combine":
+        _sizes_agree(T[e[1]], _tn_sizes(T[e[2]]))
         T[w.newname()] = T[e[1]].combine(T[e[2]], virtual=e[3], check_collisions=True)
     elif k == "tn_from_list":
+        _sizes_agree(T[e[1]], _tn_sizes(T[e[2]]))
         T[w.newname()] = qtn.TensorNetwork([T[e[1]], T[e[2]]])
     elif k == "combine_and":
+        _sizes_agree(T[e[1]], _tn_sizes(T[e[2]]))
         T[w.newname()] = T[e[1]] & T[e[2]]
     elif k == "combine_or":
+        _sizes_agree(T[e[1]], _tn_sizes(T[e[2]]))
         T[w.newname()] = T[e[1]] | T[e[2]]
     elif k == "ior":
+        _sizes_agree(T[e[1]], _tn_sizes(T[e[2]]))
         T[e[1]] |= T[e[2]]
     elif k == "iand":
+        _sizes_agree(T[e[1]], _tn_sizes(T[e[2]]))
         T[e[1]] &= T[e[2]]
     elif k == "add_tn":
+        _sizes_agree(T[e[1]], _tn_sizes(T[e[2]]))
         T[e[1]].add_tensor_network(T[e[2]], virtual=e[3], check_collisions=True)
     else:
         raise core.HarnessError("unknown event %r" % (e,))
